@@ -516,7 +516,9 @@ def _scripted_games(run, budget):
     for n, k in want.items():
         got = {"flats-draw": 0}
         for j in range(k):
-            line, end = _playout(rng, n, rng.choice([0.9, 0.8, 0.5, 0.3]))
+            line, end = _playout(rng, n, rng.choice([0.9, 0.8, 0.5, 0.3]), maxlen=400)
+            if _ending(end) == "unfinished":       # (a scripted engine needs a line that ends by the rules)
+                continue
             lines.append((n, "random", line))
             got[_ending(end)] = got.get(_ending(end), 0) + 1
         tries = 0
